@@ -23,6 +23,12 @@
 #include <memory.h>
 #include <stdatomic.h>
 
+#include <core/verif.h>
+#ifdef ROOTSIM_VERIF
+extern uint_fast64_t verif_now(void);
+#define timer_new() verif_now()
+#endif
+
 /// A thread phase during the gvt algorithm computation
 enum thread_phase { thread_phase_idle = 0, thread_phase_A, thread_phase_B, thread_phase_C, thread_phase_D };
 
@@ -253,6 +259,7 @@ static bool gvt_node_phase_run(void)
 
 simtime_t gvt_phase_run(void)
 {
+	VERIF_YIELD(VP_GVT_PHASE);
 	if(unlikely(thread_phase))
 		return gvt_node_phase_run() ? *reducing_p : 0.0;
 
@@ -274,18 +281,23 @@ simtime_t gvt_phase_run(void)
 
 void gvt_msg_drain(void)
 {
+	VERIF_TRACE(VK_DRAIN_STAGE, 1, thread_phase, 0);
 	while(thread_phase != thread_phase_idle) // flush partial gvt algorithm
 		gvt_phase_run();
 
+	VERIF_TRACE(VK_DRAIN_STAGE, 2, 0, 0);
 	if(sync_thread_barrier())
 		mpi_node_barrier();
 	sync_thread_barrier();
 
+	VERIF_TRACE(VK_DRAIN_STAGE, 3, 0, 0);
 	for(int i = 0; i < 2; ++i) { // flush both gvt phases
+		VERIF_TRACE(VK_DRAIN_STAGE, 4 + i, 0, 0);
 		gvt_timer = 0;       // this satisfies the timer condition
 		while(!gvt_phase_run())
 			mpi_remote_msg_drain();
 	}
+	VERIF_TRACE(VK_DRAIN_STAGE, 6, 0, 0);
 }
 
 /**
